@@ -124,3 +124,18 @@ PROPS['C02'] = dict(
     trusted=ENGINE_TRUSTED + ["the render suite renders every index on a fresh Page/Menu/Sizer, as the engine does per request; walking with the next selector through the engine is covered by the engine suite's lst/sub nodes"],
     assumptions=["OutputSize > 0"],
 )
+
+DB_TRUSTED = [
+    "path.Join cleaning is not modelled: keys and session ids containing '/' or equal to '.' are outside the domain",
+    "binary-key mode: base64 is a parameter of the model (theorems hold for any encoder); the driver uses its own base64 implementation, compared with Go's on every generated key",
+    "the Postgres wrapper is exercised over the in-process fake driver (harness/internal/pgfake); without injected faults the model treats it as the memory map on the same storage keys (C13 models the transactions)",
+    "db/gdbm (cgo) is not built in this sandbox and not modelled",
+]
+PROPS['C10'] = dict(
+    prop_modules=['Vise.Props.C10'], lean_targets=['Vise.Props.C10'], suites=['db'],
+    trusted=DB_TRUSTED, assumptions=["well-formed keys (symbol grammar, not ending in a language suffix), dot-free session ids for the C10 oracle (dom=wf cases)"],
+)
+PROPS['C11'] = dict(
+    prop_modules=['Vise.Props.C11'], lean_targets=['Vise.Props.C11'], suites=['db'],
+    trusted=DB_TRUSTED, assumptions=["injectivity is proved for dot-free session ids, both empty or both non-empty; outside it the negation is proved and recorded as known finding"],
+)
